@@ -87,7 +87,7 @@ class Hexital:
                 indicator.candle_manager = self._candles[indicator.timeframe]
             else:
                 manager = CandleManager(
-                    deepcopy(self._candles[DEFAULT_CANDLES]).candles,
+                    [candle.clean_copy() for candle in self._candles[DEFAULT_CANDLES].candles],
                     candles_lifespan=self.candles_lifespan,
                     timeframe=indicator.timeframe if indicator.timeframe else self.timeframe,
                     timeframe_fill=self.timeframe_fill,
